@@ -297,7 +297,7 @@ func TestC38(t *testing.T) {
 			"unexported medium options (queue, queue size, broadcast delay) are set through the tag-guarded accessor VerifSetMediumInternals",
 		},
 		Cases:           map[string]int{"quick": 1500, "thorough": 30000},
-		RequireCounters: []string{"publish_spanning_subscription_start", "recovered_incarnations", "insufficient_state_endings", "racer_publishes", "faults_injected", "alive_at_top", "nonpositioned_publications_delivered", "tail_loss_cases_with_staggered_subscribers", "tail_loss_subscriptions_ended"},
+		RequireCounters: []string{"loss_bursts_after_history_read", "publish_spanning_subscription_start", "recovered_incarnations", "insufficient_state_endings", "racer_publishes", "faults_injected", "alive_at_top", "nonpositioned_publications_delivered", "tail_loss_cases_with_staggered_subscribers", "tail_loss_subscriptions_ended"},
 		Run:             runCase,
 	})
 }
